@@ -22,7 +22,9 @@ negative addresses there).  Two/three pins: the first pinned label (text order) 
 value of a 6-value menu of BASE-relative addresses (equal, adjacent, overlapping by one unit, exactly contiguous for the
 common body sizes, before BASE, far away: the far value forces the long branch forms on x86).
 
-dst_interval in {None, tight, tight-1}: tight is the hull of the most compact layout the reference search finds.
+dst_interval in {None, roomy, tight, tight-1}: tight is the hull of the most compact layout the reference search finds,
+roomy adds 0x80 bytes of slack on both sides (the assembler reserves the *longest* encoding of every instruction while it
+places chains, so only a roomy interval exercises "patches stay inside the interval" on successful runs).
 
 Reference model / feasibility: brute force.  For every choice of encoding of every size-variable instruction and every
 placement of the un-pinned chains (all positions when the interval is small, else positions adjacent to what is already
@@ -59,11 +61,13 @@ LEVEL_NOTE = ("Trusted: mn.dis for re-decoding, the brute-force layout search (i
               "witness). Not covered: alignment directives, more than one chain of length > 1, programs whose labels are "
               "referenced by arithmetic expressions, AArch64/PPC/MeP, `conservative` re-assembly of disassembled code.")
 TECHNIQUE = "bounded-exhaustive enumeration of small assembly programs x pin sets x destination intervals against a brute-force layout model"
-ASSUMPTIONS = ["a block without terminating instruction falls through to the next label of the text",
+ASSUMPTIONS = ["pyparsing's packrat memoisation (enabled for speed) does not change what the instruction grammar accepts or builds",
+               "a block without terminating instruction falls through to the next label of the text",
                "any encoding that reaches its target is acceptable (the property does not prescribe the short form)",
                "misaligned pins on aligned architectures are outside the lattice"]
 
 BASE = 0x100
+ROOM = 0x80              # slack on both sides of the compact layout for the "roomy" interval
 UPDATE_LIMIT = 64        # label-offset updates tolerated during one assembly (terminating runs of the lattice need < 20)
 
 
@@ -140,23 +144,24 @@ ARCHS = {
     },
 }
 TERM = ("J", "R")
+PLACEMENT_REFUSALS = ("Chain-placed-out-of-destination-interval", "Cannot-find-enough-space-to-place-blocks")
 
 # tier -> arch -> parameters
 BOUNDS = {
     "quick": {
         "x86_32": {"structures": [(1, 0), (2, 0), (3, 0), (1, 1), (2, 1)], "inner": ["N", "D", "Z"], "last": ["N", "D", "J"],
-                   "free": ["J", "R"], "refs": ["next"], "max_pins": 2, "pair_intervals": ["none", "tight"]},
+                   "free": ["J", "R"], "refs": ["next"], "max_pins": 2, "pair_intervals": ["none", "roomy", "tight"]},
     },
     "thorough": {
         "x86_32": {"structures": [(1, 0), (2, 0), (3, 0), (1, 1), (2, 1), (3, 1), (1, 2), (2, 2)],
                    "inner": ["N", "N3", "D", "Z"], "last": ["N", "D", "J"], "free": ["J", "R"], "refs": ["next", "first"],
-                   "max_pins": 3, "pair_intervals": ["none", "tight", "tight-1"]},
+                   "max_pins": 3, "pair_intervals": ["none", "roomy", "tight", "tight-1"]},
         "arml": {"structures": [(1, 0), (2, 0), (3, 0), (1, 1), (2, 1), (3, 1)], "inner": ["N", "D", "Z"], "last": ["N", "D", "J"],
-                 "free": ["J", "R"], "refs": ["next"], "max_pins": 2, "pair_intervals": ["none", "tight"]},
+                 "free": ["J", "R"], "refs": ["next"], "max_pins": 2, "pair_intervals": ["none", "roomy", "tight"]},
         "mips32l": {"structures": [(1, 0), (2, 0), (3, 0), (1, 1), (2, 1), (3, 1)], "inner": ["N", "D", "Z"], "last": ["N", "D", "J"],
-                    "free": ["J", "R"], "refs": ["next"], "max_pins": 2, "pair_intervals": ["none", "tight"]},
+                    "free": ["J", "R"], "refs": ["next"], "max_pins": 2, "pair_intervals": ["none", "roomy", "tight"]},
         "msp430": {"structures": [(1, 0), (2, 0), (3, 0), (1, 1), (2, 1), (3, 1)], "inner": ["N", "D", "Z"], "last": ["N", "D", "J"],
-                   "free": ["J", "R"], "refs": ["next"], "max_pins": 2, "pair_intervals": ["none", "tight"]},
+                   "free": ["J", "R"], "refs": ["next"], "max_pins": 2, "pair_intervals": ["none", "roomy", "tight"]},
     },
 }
 
@@ -368,15 +373,20 @@ def cases_of(prog, par):
     out = []
     for pins in pin_sets(prog, par):
         w = search(prog, pins, None)
-        kinds = ["none", "tight", "tight-1"] if len(pins) <= 1 else par["pair_intervals"]
+        kinds = ["none", "roomy", "tight", "tight-1"] if len(pins) <= 1 else par["pair_intervals"]
         for kind in kinds:
             if kind == "none":
                 out.append((pins, kind, None, w))
             elif w is not None:
-                itv = (w["lo"], w["hi"]) if kind == "tight" else (w["lo"], w["hi"] - 1)
+                if kind == "roomy":
+                    itv = (max(0, w["lo"] - ROOM), w["hi"] + ROOM)
+                elif kind == "tight":
+                    itv = (w["lo"], w["hi"])
+                else:
+                    itv = (w["lo"], w["hi"] - 1)
                 if itv[1] < itv[0]:
                     continue
-                out.append((pins, kind, itv, w if kind == "tight" else search(prog, pins, itv)))
+                out.append((pins, kind, itv, w if kind != "tight-1" else search(prog, pins, itv)))
     return out
 
 
@@ -391,6 +401,10 @@ def _machine(arch):
     if arch not in _M:
         import warnings
         warnings.simplefilter("ignore")
+        import pyparsing
+        # memoising recursive-descent parser: same grammar, same results, 4-8x faster instruction parsing
+        # (parse_txt spends > 100 ms on one `JMP label` without it)
+        pyparsing.ParserElement.enablePackrat()
         from miasm.analysis.machine import Machine
         _M[arch] = Machine(ARCHS[arch]["machine"])
         import miasm.core.asmblock as _ab
@@ -498,6 +512,18 @@ def evaluate(prog, pins, ikind, itv, witness, parsed=None):
         return vs, "diverge"
     except Exception as e:
         if witness is not None:
+            if itv and _slug(e) in PLACEMENT_REFUSALS:
+                # one raise site; what matters is whether the space the assembler reserved per block (its max_size
+                # estimate: longest encoding of every instruction) exceeds what the block finally needs
+                try:
+                    over = any(cfg.loc_key_to_block(k).max_size != sum(witness["sizes"][i]) for i, k in enumerate(keys))
+                except AttributeError:
+                    over = None
+                skel = "interval=%s:reserve=%s" % (ikind, {True: "over", False: "exact", None: "unknown"}[over])
+            elif _slug(e) == "Multiples-pinned-block-detected":
+                skel = "pins=same-chain"          # refused before any placement: positions and interval add nothing
+            elif _slug(e).startswith("cannot-asm"):
+                skel = "encoder"                  # the instruction encoder refused a reachable displacement
             bad("feasible-but-raised:%s:%s" % (type(e).__name__, _slug(e)),
                 "raised %s(%s) although the layout %s exists" % (
                     type(e).__name__, e, {labs[i]: hex(x) for i, x in enumerate(witness["addr"])}))
